@@ -1347,10 +1347,10 @@ theorem done_ok_adds (v : Variant) (q : Parser) (h : (q.done v).1 = true) :
 /-- **accepted ⇒ rendering of a well-formed numeral** (parser with the repairs F1–F4): the text is
 the rendering of an AST that obeys the separator rules, whose large units strictly decrease, and
 whose terms fit positionally (no overlap) -/
-theorem accepted_wellformed (v : Variant) (h1 : v.f1 = true) (h2 : v.f2 = true) (h3 : v.f3 = true)
-    (h4 : v.f4 = true) (text s : List Char) (h : parse v text = some s) :
+theorem wellformed_of_feed_done (v : Variant) (h1 : v.f1 = true) (h2 : v.f2 = true) (h3 : v.f3 = true)
+    (h4 : v.f4 = true) (text : List Char) (n : Nat) (q : Parser)
+    (hf : Parser.new.feed v text 0 = (n, true, q)) (hd : (q.done v).1 = true) :
     ∃ a : Numeral, a.WF ∧ a.Fits ∧ render a = text := by
-  obtain ⟨n, q, hf, hd, _⟩ := parse_some_iff v text s h
   obtain ⟨σ, hi, hr⟩ := inv_feed v h1 h2 h3 h4 text Parser.new ⟨[], [], .start⟩ 0 n q inv_new hf
   obtain ⟨d1, d2⟩ := done_ok_flags v q hd
   obtain ⟨e1, e2⟩ := done_ok_adds v q hd
@@ -1367,6 +1367,13 @@ theorem accepted_wellformed (v : Variant) (h1 : v.f1 = true) (h2 : v.f2 = true) 
     ⟨hi.largesFit, hg.1, hchain⟩, ?_⟩
   rw [show text = σ.render from by simpa [PState.render, renderLarges, renderSmalls, Cur.render] using hr.symm]
   simp [render, renderGroup, PState.render, w2]
+
+/-- the same from `parse` (every character accepted, `done()`, a rendering) -/
+theorem accepted_wellformed (v : Variant) (h1 : v.f1 = true) (h2 : v.f2 = true) (h3 : v.f3 = true)
+    (h4 : v.f4 = true) (text s : List Char) (h : parse v text = some s) :
+    ∃ a : Numeral, a.WF ∧ a.Fits ∧ render a = text := by
+  obtain ⟨n, q, hf, hd, _⟩ := parse_some_iff v text s h
+  exact wellformed_of_feed_done v h1 h2 h3 h4 text n q hf hd
 
 /-! ## F6: the error state of `done()` -/
 
